@@ -134,6 +134,7 @@ var sigs = map[string]sig{
 	"redactOperation":                 {},
 	"redactCommand":                   {},
 	"redactNamespace":                 {},
+	"RedactMongoLog":                  {},
 }
 
 // functions that call one another: emitted in one `mutual` block, all with a fuel argument
@@ -142,7 +143,7 @@ var mutualGroups = [][]string{{"redactQueryValues", "redactArrayValuesWithKey"}}
 // emission order (callees first)
 var order = []string{"HashName", "reMatchesAnyKeyInPath", "redactString", "IsEmail", "withinSearchUserDocument", "RemoveElementAfter", "RemoveElementsBeforeIncluding",
 	"traverseMapPath", "getOp", "redactScalarValue", "isFieldNameValue", "isRedactableFieldPatternInArray", "isInSearchStage", "augmentOp",
-	"redactQueryValues", "redactArrayValuesWithKey", "redactArrayValues", "redactNamespaceFields", "redactOperation", "redactCommand", "redactNamespace"}
+	"redactQueryValues", "redactArrayValuesWithKey", "redactArrayValues", "redactNamespaceFields", "redactOperation", "redactCommand", "redactNamespace", "RedactMongoLog"}
 
 type gname struct {
 	lean string
@@ -159,6 +160,7 @@ var globals = map[string]gname{
 	"encryptionKey":              {"g.encryptionKey", T("OptBytes")},
 	"redactedFieldsRegexp":       {"g.redactedFieldsRegexp", T("Re")},
 	"emailRegex":                 {"(some emailRe)", T("Re")},
+	"eagerRedactionPaths":        {"g.eagerRedactionPaths", T("StrList")},
 	"CoreOperators":              {"T.core", T("Table")},
 	"AggregationOperators":       {"T.agg", T("Table")},
 	"SearchOperators":            {"T.search", T("Table")},
@@ -341,6 +343,10 @@ func (x *tr) coerce(n ast.Node, e ex, to *ty) ex {
 			return ex{"none", to, false}
 		case "StrList":
 			return ex{"([] : List Str)", to, false}
+		case "JObj":
+			return ex{"([] : List (Str × J))", to, false} // the nil map returned next to an error: never looked at
+		case "Err":
+			return ex{"false", to, false}
 		}
 		x.bad(n, "nil used as "+to.String())
 	}
@@ -764,6 +770,21 @@ func (x *tr) call(c *ast.CallExpr) ex {
 		if len(a) == 4 && a[0].t.k == "J" && a[1].t.k == "Bool" && a[2].t.k == "StrList" && a[3].t.k == "Bool" {
 			return ex{"(← g.redactPipelineStage " + a[0].s + " " + a[1].s + " " + a[2].s + " " + a[3].s + ")", T("J"), true}
 		}
+	case "UnmarshalOrdered":
+		a := args()
+		if len(a) == 1 && a[0].t.k == "Bytes" {
+			return ex{"(errPairObj (g.UnmarshalOrdered " + a[0].s + "))", &ty{k: "Tuple", elems: []*ty{T("JObj"), T("Err")}}, a[0].partial}
+		}
+	case "redactFieldNamesFromPlanSummary":
+		a := args()
+		if len(a) == 1 && a[0].t.k == "Str" {
+			return ex{"(g.redactFieldNamesFromPlanSummary " + a[0].s + ")", T("Str"), a[0].partial}
+		}
+	case "strings.HasPrefix":
+		a := args()
+		if a[0].t.k == "Str" && a[1].t.k == "Str" {
+			return ex{"(hasPrefix " + a[0].s + " " + a[1].s + ")", T("Bool"), anyPartial(a)}
+		}
 	case "strings.TrimLeft":
 		a := args()
 		if a[0].t.k == "Str" && a[1].t.k == "Str" {
@@ -935,7 +956,11 @@ func (x *tr) define(ind int, n ast.Node, lhs []ast.Expr, rhs []ast.Expr) {
 				x.bad(n, "definition from "+v.t.String())
 			}
 			ln := x.declare(nm, v.t)
-			x.emit(ind, x.letKw(nm)+ln+" : "+v.t.lean()+" := "+v.s)
+			kw := x.letKw(nm)
+			if v.t.k == "JObj" || v.t.k == "JList" {
+				kw = "let mut " // a map / slice may be updated through a pointer held elsewhere (write-back)
+			}
+			x.emit(ind, kw+ln+" : "+v.t.lean()+" := "+v.s)
 		}
 		return
 	}
@@ -977,6 +1002,11 @@ func (x *tr) define(ind int, n ast.Node, lhs []ast.Expr, rhs []ast.Expr) {
 				x.prov[names[0]] = o
 				mut = true
 			}
+		}
+	}
+	for _, e := range v.t.elems {
+		if e.k == "JObj" || e.k == "JList" {
+			mut = true
 		}
 	}
 	kw := "let "
